@@ -301,7 +301,7 @@ def cut_loop(ex, node, st, lid, lspec, it, guard, auto_range):
         if is_for:
             ctx.assume(h, auto_range(kk))
         for c in lspec.inv:
-            ctx.assume(h, with_ghost(kk, lambda: ex.eval_spec(c, h)))
+            ctx.assume(h, with_ghost(kk, lambda: ex.eval_spec(c, h, assumed=True)))
         # guard
         if is_for:
             g = guard(kk)
